@@ -42,7 +42,7 @@ func MarshalConf(c *configs.SchedulerConfig) string {
 	return string(b)
 }
 
-var queueNamePool = []string{"a", "ab", "b", "a_b", "x1", "q", "dev", "prod"}
+var queueNamePool = []string{"a", "ab", "b", "a_b", "x1", "q", "dev", "prod", "Batch", "Q2", "A"}
 
 type confGen struct {
 	t    *rapid.T
@@ -475,10 +475,10 @@ func GenConf(t *rapid.T, o ConfOpts) *configs.SchedulerConfig {
 	used := map[string]bool{}
 	for i := 0; i < n; i++ {
 		cn := rapid.SampledFrom(queueNamePool).Draw(t, fmt.Sprintf("root-child-%d", i))
-		if used[cn] {
+		if used[strings.ToLower(cn)] {
 			continue
 		}
-		used[cn] = true
+		used[strings.ToLower(cn)] = true
 		root.Queues = append(root.Queues, g.genQueue(cn, "root", 1, Res{}, root.MaxApplications, Res{}, lim))
 	}
 	part := configs.PartitionConfig{Name: "default", Queues: []configs.QueueConfig{root}}
@@ -642,6 +642,158 @@ func MutateLimitsKinds(t *rapid.T, c *configs.SchedulerConfig, kinds []int) *con
 	}
 	if !ValidConf(out) {
 		return c
+	}
+	return out
+}
+
+// MutateConf returns a variation of the current configuration for a Reload op: limits, properties, quotas and
+// max-applications changed, queues removed / added back / added, placement rules and node sorting changed. About one
+// in five results is deliberately broken (rejected by validation, or only by the dry run of the new placement rules).
+func MutateConf(t *rapid.T, cur, initial *configs.SchedulerConfig) *configs.SchedulerConfig {
+	if rapid.IntRange(0, 19).Draw(t, "reload-identical") == 0 {
+		return CloneConf(cur)
+	}
+	out := CloneConf(cur)
+	part := &out.Partitions[0]
+	root := &part.Queues[0]
+	type ref struct {
+		q      *configs.QueueConfig
+		parent *configs.QueueConfig
+		depth  int
+	}
+	var all []ref
+	var collect func(q, parent *configs.QueueConfig, d int)
+	collect = func(q, parent *configs.QueueConfig, d int) {
+		all = append(all, ref{q, parent, d})
+		for i := range q.Queues {
+			collect(&q.Queues[i], q, d+1)
+		}
+	}
+	n := rapid.IntRange(1, 3).Draw(t, "reload-mutations")
+	for i := 0; i < n; i++ {
+		all = nil
+		collect(root, nil, 0)
+		r := all[rapid.IntRange(0, len(all)-1).Draw(t, "reload-queue")]
+		switch rapid.IntRange(0, 11).Draw(t, "reload-kind") {
+		case 0: // properties
+			if r.q.Properties == nil {
+				r.q.Properties = map[string]string{}
+			}
+			switch rapid.IntRange(0, 5).Draw(t, "prop") {
+			case 0:
+				r.q.Properties[configs.ApplicationSortPriority] = rapid.SampledFrom([]string{"enabled", "disabled"}).Draw(t, "prop-v")
+			case 1:
+				r.q.Properties[configs.PriorityOffset] = fmt.Sprintf("%d", rapid.IntRange(-3, 3).Draw(t, "prop-off"))
+			case 2:
+				r.q.Properties[configs.PriorityPolicy] = rapid.SampledFrom([]string{"fence", "default"}).Draw(t, "prop-pp")
+			case 3:
+				r.q.Properties[configs.PreemptionPolicy] = rapid.SampledFrom([]string{"fence", "default", "disabled"}).Draw(t, "prop-pre")
+			case 4:
+				r.q.Properties["custom.key"] = rapid.SampledFrom([]string{"a", "b"}).Draw(t, "prop-custom")
+			default:
+				r.q.Properties = nil
+			}
+		case 1: // lower or raise a maximum (may become invalid: that is a rejected reload)
+			if r.depth > 0 {
+				k := rapid.SampledFrom(ResTypes).Draw(t, "max-type")
+				if r.q.Resources.Max == nil {
+					r.q.Resources.Max = map[string]string{}
+				}
+				if rapid.IntRange(0, 4).Draw(t, "max-drop") == 0 {
+					delete(r.q.Resources.Max, k)
+				} else {
+					r.q.Resources.Max[k] = Res{k: rapid.Int64Range(1, 30).Draw(t, "max-v")}.ConfMap()[k]
+				}
+				if len(r.q.Resources.Max) == 0 {
+					r.q.Resources.Max = nil
+				}
+			}
+		case 2: // guaranteed
+			if r.depth > 0 {
+				k := rapid.SampledFrom(ResTypes).Draw(t, "guar-type")
+				if r.q.Resources.Guaranteed == nil {
+					r.q.Resources.Guaranteed = map[string]string{}
+				}
+				r.q.Resources.Guaranteed[k] = Res{k: rapid.Int64Range(1, 10).Draw(t, "guar-v")}.ConfMap()[k]
+			}
+		case 3: // max applications
+			r.q.MaxApplications = rapid.Uint64Range(0, 4).Draw(t, "apps-v")
+		case 4, 5: // remove a queue (with its subtree)
+			if r.parent != nil {
+				for j := range r.parent.Queues {
+					if &r.parent.Queues[j] == r.q {
+						r.parent.Queues = append(append([]configs.QueueConfig{}, r.parent.Queues[:j]...), r.parent.Queues[j+1:]...)
+						break
+					}
+				}
+			}
+		case 6, 7: // bring back a queue of the initial configuration that is gone, or add a new one
+			var missing []configs.QueueConfig
+			var find func(iq configs.QueueConfig, cq *configs.QueueConfig)
+			find = func(iq configs.QueueConfig, cq *configs.QueueConfig) {
+				for _, ic := range iq.Queues {
+					var match *configs.QueueConfig
+					for j := range cq.Queues {
+						if strings.EqualFold(cq.Queues[j].Name, ic.Name) {
+							match = &cq.Queues[j]
+						}
+					}
+					if match == nil {
+						if cq == r.q {
+							missing = append(missing, ic)
+						}
+						continue
+					}
+					find(ic, match)
+				}
+			}
+			if initial != nil {
+				var locate func(iq configs.QueueConfig, cq *configs.QueueConfig)
+				locate = find
+				locate(initial.Partitions[0].Queues[0], root)
+			}
+			if len(missing) > 0 && rapid.Bool().Draw(t, "re-add") {
+				r.q.Queues = append(r.q.Queues, missing[rapid.IntRange(0, len(missing)-1).Draw(t, "re-add-which")])
+				r.q.Parent = true
+			} else {
+				name := rapid.SampledFrom([]string{"n1", "n2", "a", "q"}).Draw(t, "new-name")
+				dup := false
+				for _, c := range r.q.Queues {
+					if strings.EqualFold(c.Name, name) {
+						dup = true
+					}
+				}
+				if !dup || rapid.IntRange(0, 3).Draw(t, "dup-anyway") == 0 {
+					r.q.Queues = append(r.q.Queues, configs.QueueConfig{Name: name})
+					r.q.Parent = true
+				}
+			}
+		case 8: // limits
+			m := MutateLimitsKinds(t, out, []int{0, 1, 2, 3, 4, 5})
+			out = m
+			part = &out.Partitions[0]
+			root = &part.Queues[0]
+		case 9: // node sorting policy
+			part.NodeSortPolicy.Type = rapid.SampledFrom([]string{"fair", "binpacking"}).Draw(t, "nsp")
+			if rapid.Bool().Draw(t, "nsp-weights") {
+				part.NodeSortPolicy.ResourceWeights = map[string]float64{"memory": float64(rapid.IntRange(0, 3).Draw(t, "nsp-mem")), "vcore": float64(rapid.IntRange(1, 3).Draw(t, "nsp-cpu"))}
+			} else {
+				part.NodeSortPolicy.ResourceWeights = nil
+			}
+		case 10: // placement rules: valid ones, and ones only the dry run of the placement manager refuses
+			switch rapid.IntRange(0, 3).Draw(t, "rules") {
+			case 0:
+				part.PlacementRules = []configs.PlacementRule{{Name: "provided", Create: true}}
+			case 1:
+				part.PlacementRules = []configs.PlacementRule{{Name: "provided"}, {Name: "user", Create: true, Parent: &configs.PlacementRule{Name: "fixed", Value: "root.dyn", Create: true}}}
+			case 2:
+				part.PlacementRules = append([]configs.PlacementRule{{Name: "nosuchrule"}}, part.PlacementRules...)
+			default:
+				part.PlacementRules = append(part.PlacementRules, configs.PlacementRule{Name: "tag"})
+			}
+		default: // ACLs
+			r.q.SubmitACL = rapid.SampledFrom([]string{"*", "u1 g1", "", " g2"}).Draw(t, "acl")
+		}
 	}
 	return out
 }
